@@ -164,6 +164,10 @@ func c18cases(tier string) []c18case {
 		{[]string{"xthr"}, []string{"wtask"}, []c18flow{{From: 0, To: 1, Kind: "start"}}},
 		{[]string{"xthr", "task"}, []string{"wtask"}, []c18flow{{From: 0, To: 2, Kind: "start"}}},
 		{[]string{"xthr", "cat"}, nil, []c18flow{{From: 0, To: 1, Kind: "catch"}}},
+		// the waiting process has a second start event the flow does not refer to: the instance is started at the
+		// referenced one only (what the process does when it is started there by itself: `alone` uses StartWith)
+		{[]string{"thr1"}, []string{"wtwo"}, []c18flow{{From: 0, To: 1, Kind: "start"}}},
+		{[]string{"thr0", "task"}, []string{"wtwo"}, []c18flow{{From: 0, To: 2, Kind: "start"}}},
 		// one throw event passed by two tokens: two throws, two instances of the waiting process
 		{[]string{"thrtwo"}, []string{"wtask"}, []c18flow{{From: 0, To: 1, Kind: "start"}}},
 		{[]string{"thrtwo"}, nil, nil},
@@ -340,6 +344,9 @@ func c18graph(id, shape string, executable bool) *eng.Graph {
 		chain(h, task("C"), en)
 	case "wthr":
 		chain(st, task("A"), throw(), en)
+	case "wtwo": // a waiting process with TWO start events: the message flow refers to `s`; `s2` (-> task W -> e2) is not its
+		chain(st, en)
+		chain(g.Add("startEvent", "s2", ""), task("W"), g.Add("endEvent", "e2", ""))
 	case "cat":
 		chain(st, catch(), task("A"), en)
 	case "sample": // examples/multiprocess: throw, task, catch
@@ -497,7 +504,14 @@ func c18alone(c c18case, idx int, shape string, v int) []string {
 	}
 	g := c18graph(id, shape, true)
 	withV := c18withV(g)
-	in, _, err := eng.Start(g.XML(), nil)
+	var in *eng.Inst
+	var err error
+	if shape == "wtwo" {
+		// started at the referenced start event only, as the message flow does
+		in, err = c18startAt(g, id+"_s")
+	} else {
+		in, _, err = eng.Start(g.XML(), nil)
+	}
 	if err != nil {
 		return []string{"harness-error " + err.Error()}
 	}
@@ -541,6 +555,25 @@ func c18alone(c c18case, idx int, shape string, v int) []string {
 	}
 	sort.Strings(outl)
 	return outl
+}
+
+// c18startAt: an instance of the document's process started at ONE start event (Process.StartWith)
+func c18startAt(g *eng.Graph, startID string) (*eng.Inst, error) {
+	defs, err := schema.Parse([]byte(g.XML()))
+	if err != nil {
+		return nil, err
+	}
+	in, err := eng.NewInst(defs, nil)
+	if err != nil {
+		return nil, err
+	}
+	for i := range *(*defs.Processes())[0].StartEvents() {
+		se := &(*(*defs.Processes())[0].StartEvents())[i]
+		if id, ok := se.Id(); ok && *id == startID {
+			return in, in.Proc.StartWith(in.Ctx, se)
+		}
+	}
+	return in, fmt.Errorf("no start event %s", startID)
 }
 
 func c18has(ls []string, s string) bool {
